@@ -22,23 +22,25 @@ LEVEL_TEXT = ('Partial. Coq theorems: (a) adjoint identity over an abstract real
               'they call, hessian_vec, grad_x, the place where objective.p is re-established (before anything is evaluated on the objective) and what '
               'the forward rules save all regenerated from the AST; theorem: nonlinear_solve_with_state_b returns in position k of Params the '
               'implicit-function cotangent of slot k at the SAVED parameters for ANY objective.p at backward time (None for absent slots / slot 3, zero '
-              'for the guess), nonlinear_solve_b the design-slot cotangent if the other slots of objective.p are unchanged since the forward pass; the '
+              'for the guess), nonlinear_solve_b the design-slot cotangent at the SAVED parameters, again for ANY objective.p at backward time; the '
               'closures linearise at the actual parameters; (a2) all slots at once: for any descriptor passing revrule_ok (and for nonlinear_solve_with_state_b on the '
               'regenerated tables, whatever objective.p holds) <v, dU> = sum_k <dp_k, returned cotangent of slot k> for the implicit-function tangent dU of the solution '
               'when every differentiated slot moves (total derivative, not slot by slot); (a3) load histories on ONE Objective (model/M_C07_Hist.v: the reverse rules run '
               'last-to-first, each reads and assigns the mutable objective.p, cotangents are pulled back to the global parameters and to the previous solution = initial '
               'guess): the sweep never gets stuck and the accumulated cotangent pairs with d(theta) as sum_k <v_k, dU_k>, the derivative by the chained implicit function '
-              'theorem -- for histories of nonlinear_solve_with_state with NO hypothesis on objective.p, for histories of nonlinear_solve if slots 0,1,3,4,5 of objective.p '
-              'are the same in every forward pass and at the start of the sweep (the rules preserve that: invariant proved), for mixed histories under the per-step '
-              'condition; REFUTED without it (C07_design_rule_load_stepping_refuted: nonlinear_solve_b re-establishes the design slot only, so load stepping through '
-              'objective.p gives the cotangent at the LAST load; reproduced on the implementation, open finding C07-DESIGN-RESTORE); (c) slot laws of param_index_update (regenerated table); (d) the two function-space '
+              'theorem -- with NO hypothesis on objective.p for either entry point (any mix of nonlinear_solve and nonlinear_solve_with_state, any objective.p at the start of the sweep or '
+              'between the solves: since /repo 42a60d0 both reverse rules re-establish the Params their forward rule saved); forward model (regenerated: parameters each primal hands '
+              'to the equation solver, nonlinear_equation_solve assigns objective.p on every path, what each forward rule saves): both forward rules save exactly the parameters their '
+              'solve ran with and for nonlinear_solve these carry the design; the rule shape before the fix (design slot only) is kept as a remark about the model: correct iff the '
+              'other slots of objective.p are unchanged (C07_design_rule_prefix_ift), refuted under load stepping (C07_design_rule_load_stepping_refuted; finding '
+              'C07-DESIGN-RESTORE, fixed); (c) slot laws of param_index_update (regenerated table); (d) the two function-space '
               'constructors are the same term after mesh.coords := coords and the re-made mesh carries every Mesh field verbatim. Not proved '
               '(hypotheses of the composition, checked on the implementation against dense linear algebra): JAX vjp is the transpose of the derivative, '
               'jvp of a gradient is linear and self-adjoint, CG at infinite radius returns a minimiser for every SPD preconditioner (streams with exact and '
               'deliberately poor preconditioners), the implicit function theorem itself (the tangent is defined by H u = -J dp); the vjp wrappers of '
-              'MechanicsInverse are only checked against dense jacfwd; of the forward passes only the handling of objective.p is modelled (regenerated: which parameters each '
-              'primal hands to the equation solver, nonlinear_equation_solve assigns objective.p on every path; theorem: a history of nonlinear_solve calls never changes '
-              'slots 0,1,3,4,5 of objective.p, which is what the design-history theorem asks), the records of that forward model are not yet fed into the sweep theorem by a theorem, and the ordering / accumulation of the rules by JAX is how the model reads jax.grad (checked by the history, load-stepping and trace streams).')
+              'MechanicsInverse are only checked against dense jacfwd; of the forward passes only the handling of objective.p and of the saved residuals is modelled (equation solver = black box), '
+              'the records of that forward model are not yet fed into the sweep theorem by a theorem, and the ordering / accumulation of the rules by JAX is how the model reads jax.grad '
+              '(checked by the history, load-stepping and trace streams).')
 TECHNIQUE = 'Coq proof (abstract algebra over Reals; computation over regenerated reference tables) + implementation-side conclusion checks against dense linear algebra'
 GEN = ['Refs_NonlinearSolve', 'CFG_drivers']
 TARGETS = ['proofs/L_C07.vo', 'proofs/L_C07_Rule.vo', 'proofs/L_C07_Hist.vo', 'proofs/L_C19.vo', 'model/M_C07_Refs.vo', 'model/M_C07_Rule.vo', 'model/M_C07_Hist.vo']
@@ -56,7 +58,7 @@ ASSUMPTIONS = ['adjoint theorem: symmetry and bilinearity of the inner product, 
                'the objective passed to the reverse rules is an optimism.Objective.Objective (methods resolved against that class)',
                'history theorems: additionally <a, 0> = 0, additivity of the inner product of the global parameters, the pull-backs b_At / b_Bt of the user-side parameter '
                'functions are transposes of their derivatives (weak form), solve_hyps at every forward solution for every right-hand side; the sweep order and the summation of '
-               'cotangents stand for jax.grad; for nonlinear_solve the objective.p of each forward pass (t_pobj) is a datum of the statement (Example C07_history_nonvacuous); '
+               'cotangents stand for jax.grad (Examples C07_history_nonvacuous, C07_design_history_nonvacuous); '
                'forward model: the equation solver is a section variable returning the solution',
                'jax.vjp of the gradient w.r.t. a parameter slot is the transposed parameter Jacobian (JAX); checked against jacfwd in L2']
 RULE = ('seeded parameterised energies (quadratic + quartic, 2-6 unknowns, slots 0,1,2,4, random cotangents) through jax.vjp of nonlinear_solve and '
@@ -64,8 +66,8 @@ RULE = ('seeded parameterised energies (quadratic + quartic, 2-6 unknowns, slots
         'that depends on the previous solution (chained derivative w.r.t. bc, design, initial state and time offset); histories of 1-3 solves on ONE '
         'Objective with a PrecondStrategy that is exact / bulk part only / diagonal / stale (another point and parameters) / diagonally shifted / '
         'TwoTry(bulk, exact) / the default dense one, every slot of every step against the dense implicit-function value; load stepping with nonlinear_solve where the '
-        'boundary data is assigned to objective.p between the steps (energy couples boundary data and design): the sensitivity of the LAST solution must be right (it is), '
-        'that of the whole history is the open finding C07-DESIGN-RESTORE; synthetic energies / material updates on small structured meshes for the helper VJPs; perturbed meshes for the '
+        'boundary data is assigned to objective.p between the steps (energy couples boundary data and design): the sensitivity of the LAST solution and that of the whole '
+        'history must both equal the chained implicit-function derivative (the latter was finding C07-DESIGN-RESTORE, fixed in /repo 42a60d0); synthetic energies / material updates on small structured meshes for the helper VJPs; perturbed meshes for the '
         'adjoint function space; distinct = distinct spec tuples, non-trivial = non-zero cotangent and parameter Jacobian')
 IMPORTS = ['From OV.model Require Import M_C07_Refs.', 'From OV.gen Require Import Refs_NonlinearSolve.']
 
@@ -270,8 +272,8 @@ def run_loadhist(spec):
     """K solves with nonlinear_solve on ONE Objective; between the solves the boundary data is assigned to objective.p (the only way to step a load with
     this entry point: every slot but the design lives in the objective).  The energy couples boundary data and design, so d(grad)/d(design) depends on the
     load.  J = sum_k w_k v_k . U_k; variant 'last': w = (0,..,0,1) -- when the reverse rule of the last solve runs objective.p still holds ITS load, the
-    derivative must be right; variant 'all': w = 1 -- the reverse rules of the earlier solves run while objective.p holds the LAST load and re-establish the
-    design slot only (theorem C07_design_rule_load_stepping_refuted; finding C07-DESIGN-RESTORE)."""
+    derivative must be right; variant 'all': w = 1 -- the reverse rules of the earlier solves run while objective.p holds the LAST load, so they must
+    re-establish ALL parameters of their forward solve (they do since /repo 42a60d0; before, finding C07-DESIGN-RESTORE; theorem C07_design_history_adjoint)."""
     M = mods()
     jax, jnp, onp, Obj, Eq, NLS = M['jax'], M['jnp'], M['onp'], M['Obj'], M['Eq'], M['NLS']
     f0, p, _ = build_energy(spec)
@@ -713,7 +715,7 @@ def specs_all(ctx):
 
 
 def loadhist_specs(r, count):
-    # appended after every other draw (older streams keep their cases); variants alternate: 'last' must hold, 'all' is the open finding C07-DESIGN-RESTORE
+    # appended after every other draw (older streams keep their cases); variants alternate; both must hold ('all' was finding C07-DESIGN-RESTORE, fixed)
     out = []
     for k in range(count):
         out.append(dict(kind='loadhist', variant=['last', 'all'][k % 2], family=['quartic', 'quad'][(k // 2) % 2], n=r.choice([2, 3, 4]),
@@ -797,10 +799,11 @@ def search(ctx, reasons):
     hist.sort(key=lambda x: (0 if x['rule'] == 'state' else 1, -x['steps']))     # two or more solves on one Objective with different parameters: state rule first
     # if the rule tables no longer resolve (objective.p not re-established, a slot helper differentiating another slot, ...) a load history is what shows it
     tables = any('L_C07' in str(rr.get('what')) or 'P_C07' in str(rr.get('what')) or rr.get('kind') == 'translator' for rr in reasons)
-    specs = (hist + poor[:12]) if tables else (poor[:12] + hist)
+    lh = [x for x in specs if x['kind'] == 'loadhist']
+    specs = (lh[:4] + hist + poor[:12]) if tables else (poor[:12] + hist + lh[:4])
     specs = specs + poor[12:] + rest
     for spec in specs:
-        if spec.get('block_maps') or (spec['kind'] == 'loadhist' and spec['variant'] == 'all'):
+        if spec.get('block_maps'):
             continue
         try:
             bad, info = run_spec(spec)
@@ -818,14 +821,7 @@ def finding_fails(ctx, f):
 
 
 def matches_finding(fl, f):
-    # F3 / F3b are fixed: any recurrence is a violation.  C07-DESIGN-RESTORE: exactly the 'all' variant of the load-stepping stream (earlier solves of a
-    # history of nonlinear_solve whose boundary data was assigned to objective.p between the solves), wrong VALUE of the design sensitivity -- not an exception,
-    # not the 'last' variant, no other stream
-    if f.get('id') != 'C07-DESIGN-RESTORE':
-        return False
-    case = fl.get('case') or {}
-    return (fl.get('kind') == 'conclusion' and case.get('kind') == 'loadhist' and case.get('variant') == 'all' and case.get('steps', 0) >= 2
-            and 'load stepping through objective.p with nonlinear_solve' in str(fl.get('what')) and 'raised' not in str(fl.get('what')))
+    return False        # F3, F3b and C07-DESIGN-RESTORE are fixed: any recurrence is a violation (finding_fails replays their witnesses on every run)
 
 
 def replay(ctx, path):
